@@ -1,4 +1,5 @@
 import json
+import os
 from typing import Union
 
 from leaspy import __version__
@@ -35,10 +36,10 @@ class ModelSettings:
         If the provided settings are not valid or if the file cannot be read.
     """
 
-    def __init__(self, path_to_model_settings_or_dict: Union[str, dict]):
+    def __init__(self, path_to_model_settings_or_dict: Union[str, os.PathLike, dict]):
         if isinstance(path_to_model_settings_or_dict, dict):
             settings = path_to_model_settings_or_dict
-        elif isinstance(path_to_model_settings_or_dict, str):
+        elif isinstance(path_to_model_settings_or_dict, (str, os.PathLike)):
             with open(path_to_model_settings_or_dict) as fp:
                 settings = json.load(fp)
         else:
